@@ -167,7 +167,9 @@ def gen(max_rows=10):
         na = draw(st.sampled_from(["drop", "drop", "drop", "raise", "ignore"]))
         return {
             "frame": fr, "index_kind": kind, "formula": fc, "na_action": na,
-            "drop": draw(st.one_of(st.none(), st.lists(st.integers(0, 30), max_size=4))),
+            "drop": draw(st.one_of(st.none(), st.lists(st.integers(0, 30), max_size=4), st.lists(st.integers(0, 19), min_size=2, max_size=6),
+                                     # sets of small ints that do not iterate in sorted order
+                                     st.sampled_from([[1, 3, 10], [0, 2, 9, 11], [2, 12, 4], [5, 8, 6], [3, 17, 4, 9]]))),
             "entry": draw(st.sampled_from(["model_matrix", "formula", "spec", "spec-overrides", "twosided", "specs-overrides", "materializer-reused"])),
             "output": draw(st.sampled_from(["pandas", "pandas", "numpy", "sparse"])),
             "efr": draw(st.booleans()),
@@ -180,4 +182,5 @@ BUDGET_S = {"quick": 70, "thorough": 1500}
 
 
 def campaigns(tier, shard=0, nshards=1):
-    return [Campaign("policy", gen(10 if tier == "quick" else 20), check_case, 1500 if tier == "quick" else 12000)]
+    # (frames of more than 8 rows matter: the iteration order of a set of small ints is only sorted below 8)
+    return [Campaign("policy", gen(20 if tier == "quick" else 28), check_case, 1500 if tier == "quick" else 12000)]
